@@ -108,8 +108,13 @@ def main():
     # verdicts that hang on a set of frontier states: an if whose branches start with inverted sets after an open-ended match
     h9 = hp("hist-if-after-lookahead", 'out int c = 0;\nparser { /x(ay)?/; if c == 0 { /[^a]p/; } else { /[^b]q/; } }\n')
     h10 = hp("hist-if-after-lookahead-2", 'out int c = 0;\nparser { /x(ay)?(bz)?/; if c == 0 { /[^a]p/; } elif c == 1 { /[^b]q/; } else { /[^ab]r/; } }\n')
-    groups += [[h1, h2, h3, h4], [h4, h5, h1, h3], [h6, h1, h6, h2], [h7, h8, h5, h7], [h9, h10, h9, h5]]
-    progs = progs + [h1, h2, h3, h4, h5, h6, h7, h8, h9, h10]
+    # interpreter-wide limits: a short program with a deep automaton (beyond the recursion limit: diagnosed) next to a long
+    # program of many shallow statements - the verdict on the first must not depend on having compiled the second
+    h11 = hp("hist-deep-literal", 'out int n = 0;\nparser { "' + "a" * 1500 + '"; n = 1; }\n')
+    h12 = hp("hist-many-statements", "parser {\n" + "".join(f'  "{chr(97 + i % 26)}";\n' for i in range(400)) + "}\n")
+    h13 = hp("hist-deep-literal-casei", 'parser { "' + "b" * 1200 + '"i; }\n')
+    groups += [[h1, h2, h3, h4], [h4, h5, h1, h3], [h6, h1, h6, h2], [h7, h8, h5, h7], [h9, h10, h9, h5], [h12, h11, h13, h2]]
+    progs = progs + [h1, h2, h3, h4, h5, h6, h7, h8, h9, h10, h11, h12, h13]
     with mp.Pool(min(14, os.cpu_count() or 4)) as pool:
         results = pool.map(work, [(g, ck.seed, ck.tier) for g in groups], chunksize=1)
     st = {"programs": len(progs), "histories_compared": 0}
